@@ -20,3 +20,24 @@ func dumpFuncs(repo, pat string) {
 		}
 	}
 }
+
+func dumpBounds(repo, pat string) {
+	p, err := Load(LoadConfig{Dir: repo})
+	if err != nil {
+		fmt.Fprintln(os.Stderr, err)
+		os.Exit(2)
+	}
+	b := p.NewBounds()
+	for _, fn := range p.Funcs {
+		if !strings.Contains(p.FuncKey(fn), pat) {
+			continue
+		}
+		for _, o := range b.CheckFunc(fn) {
+			st := "PROVED"
+			if !o.OK {
+				st = "FAILED"
+			}
+			fmt.Printf("%s %-40s %-6s %-28s %s  -- %s\n", st, p.FuncKey(fn), o.Kind, o.Desc, p.InstrPos(o.Instr), o.Why)
+		}
+	}
+}
